@@ -10,7 +10,7 @@ def cR(v): return dict(t="result", v=v)
 def retry(max=2, h=(), a=(), rlf=False, dly=0, maxd=0): return dict(k="retry", max=max, h=list(h), a=list(a), rlf=rlf, dly=dly, maxd=maxd)
 def to(limit): return dict(k="to", limit=limit)
 def hg(maxh=1, delay=2, c=(), delays=()): return dict(k="hg", maxh=maxh, delay=delay, c=list(c), delays=list(delays))
-def fb(fr="RF", fe=None, h=()): return dict(k="fb", fr=fr, fe=leaf(fe) if fe else NIL, h=list(h))
+def fb(fr="RF", fe=None, h=(), fld=0): return dict(k="fb", fr=fr, fe=leaf(fe) if fe else NIL, h=list(h), fld=fld)
 def bh(id, max=1, wait=0): return dict(k="bh", id=id, max=max, wait=wait)
 def rl(id, ival=3, wait=0): return dict(k="rl", id=id, ival=ival, wait=wait)
 BR1 = dict(fthr=1, fcap=1, frate=0, fexec=0, period=0, sthr=0, scap=0, delay=1000)
